@@ -176,8 +176,9 @@ def run(ctx):
             ctx.count("joint-run")
             check_joint_run(ctx, r)
         # (d) joint-of-one == single
-        for i in range(ctx.budget(3, 10)):
-            base = {"N": 1 + i % 2, "W": 1 + i % 3, "K": 2 + i % 2, "beta": [4.0, 0.0, 25.0][i % 3], "lengths": [40 + 3 * i], "limit": 4, "m": 2,
+        for i in range(ctx.budget(8, 16)):
+            # every residue of W modulo 4 (the margin is (W-1)//2 at the front, the rest at the back), odd and even, up to 12
+            base = {"N": 1 + i % 2, "W": [1, 2, 3, 4, 5, 8, 6, 12, 7, 9, 10, 11, 4, 8, 12, 2][i], "K": 2 + i % 2, "beta": [4.0, 0.0, 25.0][i % 3], "lengths": [44 + 3 * i], "limit": 3, "m": 2,
                     "data_seed": 50 + i, "rng_seed": 9 + i, "regimes": 2}
             a = e2e.traced_run(dict(base, joint=False))
             b = e2e.traced_run(dict(base, joint=True))
